@@ -29,6 +29,8 @@ func init() {
 			j.Variant = "small"
 			jobs = append(jobs, j)
 		}
+		// stripe tables with empty slots between rings (two doublings, then attaches at environment-chosen slots)
+		add(c17Params{MaxLen: 4, Adders: []int{2, 1}, Prefill: 1, Doubles: 2, Drains: 1, RandOpts: 4}, "small", 1, 4, 8, 60, "success", "ring-behind-empty-stripe")
 		if !thorough {
 			// first-use initialisation race + adds racing one drain
 			add(c17Params{MaxLen: 2, Adders: []int{2, 2}, Drains: 1}, "small", 2, 0, 8, 60, "success")
